@@ -1,7 +1,6 @@
 package vuego
 
 import (
-	"bytes"
 	"context"
 	"io"
 	"strings"
@@ -168,6 +167,44 @@ func renderNode(w io.Writer, node *html.Node, indent int) error {
 	return renderNodeWithContext(ctx, w, node, indent)
 }
 
+// renderPreformatted writes the children of a preformatted element inline, at any depth:
+// whitespace inside <pre> is content, so whitespace-only text is kept and no indentation or
+// line break of our own is added between or inside the elements there.
+func renderPreformatted(w io.Writer, node *html.Node) {
+	for c := node.FirstChild; c != nil; c = c.NextSibling {
+		switch c.Type {
+		case html.TextNode:
+			if shouldEscapeTextNode(c.Data) {
+				_, _ = w.Write([]byte(html.EscapeString(c.Data)))
+			} else {
+				_, _ = w.Write([]byte(c.Data))
+			}
+		case html.ElementNode:
+			// evaluated v-html / v-text content is stored in internal attributes
+			content, hasContent := "", false
+			for _, attr := range c.Attr {
+				if attr.Key == "data-v-html-content" || attr.Key == "data-v-text-content" {
+					content, hasContent = attr.Val, attr.Val != ""
+					break
+				}
+			}
+			// <template> contributes its children only (unless v-keep is set)
+			bare := c.Data == "template" && !helpers.HasAttr(c, "v-keep")
+			if !bare {
+				_, _ = w.Write([]byte("<" + c.Data + renderAttrs(c.Attr) + ">"))
+			}
+			if hasContent {
+				_, _ = w.Write([]byte(content))
+			} else {
+				renderPreformatted(w, c)
+			}
+			if !bare {
+				_, _ = w.Write([]byte("</" + c.Data + ">"))
+			}
+		}
+	}
+}
+
 func renderNodeWithContext(ctx VueContext, w io.Writer, node *html.Node, indent int) error {
 	switch node.Type {
 	case html.TextNode:
@@ -283,15 +320,7 @@ func renderNodeWithContext(ctx VueContext, w io.Writer, node *html.Node, indent 
 		} else if tagName == "pre" {
 			// preformatted: no indentation or line breaks of our own inside
 			_, _ = w.Write([]byte(spaces + "<" + tagName + renderAttrs(node.Attr) + ">"))
-			var cb bytes.Buffer
-			ctx.PushTag(tagName)
-			for c := firstChild; c != nil; c = c.NextSibling {
-				if err := renderNodeWithContext(ctx, &cb, c, 0); err != nil {
-					return err
-				}
-			}
-			ctx.PopTag()
-			_, _ = w.Write(bytes.TrimSuffix(cb.Bytes(), []byte("\n")))
+			renderPreformatted(w, node)
 			_, _ = w.Write([]byte("</" + tagName + ">\n"))
 		} else {
 			_, _ = w.Write([]byte(spaces + "<" + tagName + renderAttrs(node.Attr) + ">\n"))
